@@ -233,6 +233,13 @@ def run_job(job, deadline):
     return acc.result()
 
 
+def _safe(f):
+    try:
+        return f()
+    except Exception as e:
+        return e
+
+
 def _run_e2e(job, acc, deadline):
     import fairlearn.metrics as fm
 
@@ -250,11 +257,23 @@ def _run_e2e(job, acc, deadline):
             pr = [real(f"p{i}") for i in range(n)] if job["metric"] == "mean_prediction-symp" else [np.float64(x) for x in job["cp"]]
             mf = fm.MetricFrame(metrics=fm.mean_prediction, y_true=[0] * n, y_pred=np.array(pr, dtype=object), sensitive_features=labels,
                                 sample_params={"sample_weight": w})
-        return mf.difference(method="between_groups"), mf.difference(method="to_overall"), mf.ratio(method="between_groups"), mf.ratio(method="to_overall")
+        # first-principles values of every group and of the whole data set (weighted means over the rows)
+        vals_of = (lambda i: (1 if yp[i] == 1 else 0)) if job["metric"] == "selection_rate" else (lambda i: pr[i])
+        mean = lambda rows: sum(w[i] * vals_of(i) for i in rows) / sum(w[i] for i in rows)
+        gvals = [mean([i for i in range(n) if groups[i] == g]) for g in sorted(set(groups))]
+        want_db = O.omax(gvals) - O.omin(gvals)
+        want_do = O.omax([O.oabs(v - mean(list(range(n)))) for v in gvals])
+        safe = lambda f: _safe(f)
+        return (mf.difference(method="between_groups"), mf.difference(method="to_overall"), mf.ratio(method="between_groups"), mf.ratio(method="to_overall"),
+                want_db, want_do, safe(lambda: mf.group_max()), safe(lambda: mf.group_min()), O.omax(gvals), O.omin(gvals))
 
     def on_ok(ctx, out):
-        db, do, rb, ro = out
+        db, do, rb, ro, want_db, want_do, gmax, gmin, want_max, want_min = out
         acc.reach(ctx)
+        # every group - also one that consists of a single weighted row - takes part in the aggregates
+        for name, got, want in (("difference_between_groups", db, want_db), ("difference_to_overall", do, want_do), ("group_max", gmax, want_max), ("group_min", gmin, want_min)):
+            ok = z3.BoolVal(False) if (isinstance(got, Exception) or np.ndim(got) != 0) else O.same(got, want)
+            acc.check(ctx, f"e2e_{name}_is_the_documented_function_of_all_group_values", ok, signature=f"e2e:{job['metric']}:{name}", extra={"got": repr(got)[:120]})
         acc.check(ctx, "to_overall_le_between_groups_for_weighted_means", O.le(do, db), signature=f"e2e:{job['metric']}:convex")
         acc.check(ctx, "between_le_twice_to_overall", O.le(db, 2 * do) if not (core.is_nan(db) or core.is_nan(do)) else z3.BoolVal(True),
                   signature=f"e2e:{job['metric']}:triangle")
@@ -290,7 +309,16 @@ def replay(cex):
             mf = fm.MetricFrame(metrics=fm.mean_prediction, y_true=[0] * n, y_pred=pr, sensitive_features=labels, sample_params={"sample_weight": w})
         db, do = mf.difference(method="between_groups"), mf.difference(method="to_overall")
         bad = do > db + 1e-12 or db > 2 * do + 1e-12
-        return {"reproduced": bool(bad), "detail": f"between_groups={db} to_overall={do} weights={w}"}
+        vals_of = (lambda i: (1.0 if yp[i] == 1 else 0.0)) if job["metric"] == "selection_rate" else (lambda i: pr[i])
+        mean = lambda rows: sum(w[i] * vals_of(i) for i in rows) / sum(w[i] for i in rows)
+        gv = [mean([i for i in range(n) if groups[i] == g]) for g in sorted(set(groups))]
+        ov = mean(list(range(n)))
+        msgs = []
+        for name, got, want in (("difference(between_groups)", db, max(gv) - min(gv)), ("difference(to_overall)", do, max(abs(v - ov) for v in gv)),
+                                ("group_max()", _safe(lambda: mf.group_max()), max(gv)), ("group_min()", _safe(lambda: mf.group_min()), min(gv))):
+            if isinstance(got, Exception) or np.ndim(got) != 0 or abs(float(got) - want) > 1e-9 * max(1.0, abs(want)):
+                msgs.append(f"{name} = {got!r}, the group values {gv} give {want}")
+        return {"reproduced": bool(bad or msgs), "detail": "; ".join(msgs)[:500] + f" | between_groups={db} to_overall={do} weights={w} groups={groups}"}
     cls, sfs, mets, cells, over, by_group, overall = _build_tables(job, lambda nm: float(F(mdl.get(nm, "0"))))
     by_group = by_group.astype(float)
     overall = overall.astype(float)
